@@ -115,6 +115,13 @@ func (p *Program) typeID(t types.Type) int64 {
 	if id, ok := p.typeIDs[k]; ok {
 		return id
 	}
+	// a contract may have named the type first (typeid("CloseErr")): same identity
+	for short, id := range p.typeIDs {
+		if strings.HasSuffix(k, "."+short) || strings.HasSuffix(k, "/"+short) {
+			p.typeIDs[k] = id
+			return id
+		}
+	}
 	id := int64(10 + len(p.typeIDs))
 	p.typeIDs[k] = id
 	return id
@@ -232,7 +239,7 @@ func (x *Exec) pos(p token.Pos) string {
 
 // oblige records a proof duty.
 func (x *Exec) oblige(st *State, kind, site, descr string, props []string, goal *Term) {
-	if st.dead {
+	if st.dead || goal == tErr {
 		return
 	}
 	base := fmt.Sprintf("%s/%s/%s", x.key, kind, site)
